@@ -8,3 +8,23 @@ package logderivarg
 // Build (the committed vector = table unless constant ++ queries ++ multiplicities, and the log-derivative
 // identity itself) is not yet under contract: the row-length invariants over the nested tables did not
 // discharge within the budget. See DESIGN.md section 9.
+
+// ---- data flow of Build: the commitment every challenge derives from is taken over the table (unless it is
+// constant), every query and every multiplicity, in this order. rowsSeq(t, i): concatenation of the first i rows
+// (uninterpreted, unfolded along the loops' own walk). The argument's probabilistic soundness is not a contract.
+//@ spec func rowsSeq(t Table, i int) int
+//@ contract Build
+//@   props C13
+//@   assigns api, nCommitted(api, 0)
+//@   requires api != nil
+//@   ensures @committed result == nil ==> seqOf(toCommit) == seqCat(seqCat((constTable ? seqEmpty() : rowsSeq(table, len(table))), rowsSeq(queries, len(queries))), seqOf(exps))
+//@   loop 4 lemma @nil len(toCommit) == 0 ==> seqOf(toCommit) == seqEmpty()
+//@   loop 4 lemma @rows0 rowsSeq(table, 0) == seqEmpty()
+//@   loop 4 lemma @unfold 0 <= rangeindex + 1 && rangeindex + 1 < len(table) ==> rowsSeq(table, rangeindex + 2) == seqCat(rowsSeq(table, rangeindex + 1), seqOf(table[rangeindex + 1]))
+//@   loop 4 invariant @sep alloc(toCommit) != alloc(exps)
+//@   loop 4 invariant @tbl seqOf(toCommit) == rowsSeq(table, rangeindex + 1)
+//@   loop 5 lemma @nil len(toCommit) == 0 ==> seqOf(toCommit) == seqEmpty()
+//@   loop 5 lemma @rows0 rowsSeq(queries, 0) == seqEmpty()
+//@   loop 5 lemma @unfold 0 <= rangeindex + 1 && rangeindex + 1 < len(queries) ==> rowsSeq(queries, rangeindex + 2) == seqCat(rowsSeq(queries, rangeindex + 1), seqOf(queries[rangeindex + 1]))
+//@   loop 5 invariant @sep alloc(toCommit) != alloc(exps)
+//@   loop 5 invariant @q seqOf(toCommit) == seqCat((constTable ? seqEmpty() : rowsSeq(table, len(table))), rowsSeq(queries, rangeindex + 1))
